@@ -482,7 +482,7 @@ fn c12_build(kind: &str) -> Option<Scn> {
         let got = r.create_reader().read_all().to_vec();
         if got != expect {
             let at = got.iter().zip(&expect).position(|(a, b)| a != b).unwrap_or(got.len().min(expect.len()));
-            return Err(format!("after compact() raced with an append into the reserve, region {region} has {} bytes (expected {}), first difference at offset {at}: {:?} vs {:?}", got.len(), expect.len(), got.get(at), expect.get(at)));
+            return Err(format!("appended-bytes-lost:: after compact() raced with an append into the reserve, region {region} has {} bytes (expected {}), first difference at offset {at}: {:?} vs {:?}", got.len(), expect.len(), got.get(at), expect.get(at)));
         }
         for (n, bytes) in &others {
             if db.get_region(n).unwrap().create_reader().read_all() != &bytes[..] {
